@@ -48,10 +48,29 @@ pub fn fingerprint(seed: u64, k: u64) -> String {
     s
 }
 
+/// Simulator B: the same seed must give the same event log (every third k explores MPC messages one by one).
+pub fn server_fingerprint(seed: u64, k: u64) -> String {
+    let mut rng = entropy::rng(seed, 0x5e1f5, k);
+    let n = if k % 3 == 2 { 3 } else { 2 };
+    let np = 1 + (k % 3) as usize;
+    let policies = (0..np).map(|c| crate::checks::srv::gen_policy(&mut rng, n, c as u64 + 1, &[0, 1, 2, 3, 4])).collect();
+    let spec = crate::checks::srv::base_spec(&mut rng, n, policies, vec![2; n], k % 3 != 0);
+    let run = crate::server::run(&spec);
+    let mut dh = 0;
+    for d in &run.decisions {
+        dh = entropy::fnv(dh, d.as_bytes());
+    }
+    format!("srv k={k} log={:016x} decisions={:016x} events={} msgs={} outputs={:?}", run.log_hash, dh, run.events, run.msgs, run.outputs.iter().map(|o| format!("{}:{:?}", o.party, o.result)).collect::<Vec<_>>())
+}
+
+fn line(seed: u64, k: u64) -> String {
+    if k % 4 == 3 { server_fingerprint(seed, k) } else { fingerprint(seed, k) }
+}
+
 pub fn child(seed: u64, from: u64, to: u64) {
     crate::sim::install_panic_hook();
     for k in from..to {
-        println!("{}", fingerprint(seed, k));
+        println!("{}", line(seed, k));
     }
 }
 
@@ -60,7 +79,7 @@ pub fn main(count: u64) -> i32 {
     let seed = crate::framework::default_seed();
     let t0 = std::time::Instant::now();
     // pass 1: this process, sequential
-    let local: Vec<String> = (0..count).map(|k| fingerprint(seed, k)).collect();
+    let local: Vec<String> = (0..count).map(|k| line(seed, k)).collect();
     if let Some(l) = local.iter().find(|l| l.contains("SCRIPTED-DIVERGED")) {
         eprintln!("HARNESS-ERROR: scripted replay diverged from the reference run: {l}");
         return 2;
@@ -98,7 +117,7 @@ pub fn main(count: u64) -> i32 {
         }
     }
     println!(
-        "selftest-determinism: {count} seeds x 3 executions (1 local + 16-process + 3-process pools) identical; unseeded entropy bytes: {}; {:.1}s",
+        "selftest-determinism: {count} seeds (3 of 4 engine runs incl. scripted replay, 1 of 4 server runs) x 3 executions (1 local + 16-process + 3-process pools) identical; unseeded entropy bytes: {}; {:.1}s",
         entropy::UNSEEDED_BYTES.load(std::sync::atomic::Ordering::Relaxed),
         t0.elapsed().as_secs_f64()
     );
